@@ -401,6 +401,9 @@ func (c *DoQClient) Exchange(payload []byte, fin bool, timeout time.Duration) (d
 		}
 		return data, true, nil
 	}
+	if !fin {
+		s.Close() // late FIN: the response has been read
+	}
 	return data, true, nil
 }
 
